@@ -120,5 +120,5 @@ def main(tier):
     import tailmask
     rep.attempt(tailmask.check, rep, 250)
     import c16
-    rep.attempt(c16.check_tablefmt, rep)
+    rep.attempt(c16.check_tablefmt, rep, ('ec_encode_data_update', 'gf_vect_mad'))
     return rep.finish()
